@@ -55,6 +55,7 @@ class MarkovChain(ABC):
         """
         update_interval = 20  # small initial guess for the update interval
         start_length = copy(self.chain_length)
+        steps_taken = 0  # stays zero if the time budget is zero
 
         # first find the runtime in seconds:
         run_time = ((days * 24.0 + hours) * 60.0 + minutes) * 60.0
